@@ -704,6 +704,19 @@ def G5r(vc):
     return _g5(vc, round_trip=True)
 
 
+def _differs_for_store(state):
+    """'this handler state differs from what it was loaded from' -- as progression.State.store decides it (the real method, extracted)"""
+    calls = []
+
+    class _Storage:
+        def store(self, **kw): calls.append(kw)
+        def flush(self): pass
+    from pyvc import load
+    ld = load(PROG, "State.store")
+    ld.fn(Opaque('state', _states={'h': state}), body=Opaque('body'), patch=Opaque('patch'), storage=_Storage())
+    return len(calls) > 0
+
+
 def _g5(vc, round_trip):
     from kopf._core.intents import causes
     from pyvc.stubs import Clock, SDt
@@ -778,6 +791,12 @@ def _g5(vc, round_trip):
         vc.ensure('round_trip', s2.purpose is None if purpose is None else s2.purpose == purpose)
         vc.ensure('round_trip', s2.message is None if message is None else Eq(s2.message, message))
         vc.ensure('round_trip', list(s2.subrefs) == sorted(subrefs) and s2.active is False and s2._origin is rec)
+        if label == 'full' and retries is not None:
+            # a storage that keeps the nulls (AnnotationsProgressStorage/SmartProgressStorage(verbose=True)) returns the FULL record:
+            # a state loaded from it and not changed since must not look changed to State.store (G6: "differs from what was loaded"),
+            # or the identical record is written again in every cycle -- a non-empty patch that changes nothing on the server:
+            # apply() skips the sleep "because of the patch", no event follows, and a delayed handler is never retried (C03, C11)
+            vc.ensure('reload_is_stable', Not(_differs_for_store(s2)))
     s3 = HS.from_storage(pure, basetime=basetime)
     pure3 = s3.as_in_storage()
     same = list(pure3) == list(pure)
